@@ -334,6 +334,7 @@ func runC16(c *Ctx) {
 	}
 	c16EnumRedefined(c)
 	c16DateTime64Reparametrised(c)
+	c16LowCardinalityWideKeys(c)
 	// exhaustive short histories over a small alphabet on the stateful types
 	alpha := []string{"append", "encode", "reset", "decode", "block"}
 	maxLen := 4
@@ -688,6 +689,93 @@ func c16DateTime64Reparametrised(c *Ctx) {
 					R.Violate(Violation{Kind: "oracle", Key: "reuse-encode-wrong-values", What: fmt.Sprintf("step %d: re-encoding the reused %s column gives %s, want %s", k, ty, hx(b.Buf), hx(wire)), Case: cs})
 					break
 				}
+			}
+		}
+	}
+}
+
+// a LowCardinality column that receives blocks whose keys are WIDER than the dictionary needs (a server may send UInt16 or
+// UInt32 keys over a small dictionary), is forwarded as input in between (Prepare picks the minimal width), and receives the
+// next block: every decode must leave exactly the block's rows
+func c16LowCardinalityWideKeys(c *Ctx) {
+	R := c.R
+	r := c.Rng.Fork()
+	for _, ts := range []string{"LowCardinality(String)", "LowCardinality(UInt32)", "Array(LowCardinality(String))"} {
+		t, err := parseCH(ts)
+		if err != nil {
+			continue
+		}
+		for _, code := range []uint64{1, 2, 3} { // UInt16, UInt32, UInt64 keys
+			for _, forward := range []string{"encode", "block", "none"} {
+				col, err := newColumn(t)
+				if err != nil {
+					continue
+				}
+				cs := map[string]any{"type": ts, "key_width_code": code, "between_the_blocks": forward}
+				R.Case(fmt.Sprintf("lc-wide-keys|%s|%d|%s", ts, code, forward), true)
+				R.Count("shape:lc-wide-keys")
+				ok := true
+				for k, rows := range []int{3, 7, 2} {
+					cn := genCol(r, t, rows, genOpts{})
+					wire, _ := wireEncode(cn, nil, fieldMut{class: "lcmeta", index: -1, value: 0x600 | code})
+					col.Reset()
+					rd := proto.NewReader(bytes.NewReader(append(append([]byte(nil), wire...), 0x03, 0x0b, 0x16))) // more bytes follow on the stream
+					var derr error
+					if p, msg := safely(func() {
+						if s, isS := col.(proto.StateDecoder); isS && rows > 0 {
+							derr = s.DecodeState(rd)
+						}
+						if derr == nil {
+							derr = col.DecodeColumn(rd, rows)
+						}
+					}); p {
+						R.Violate(Violation{Kind: "oracle", Key: "reuse-decode-panic", What: "decoding wide-key LowCardinality data into the reused column panicked: " + msg, Case: cs})
+						ok = false
+						break
+					}
+					if derr != nil {
+						// a column that refuses wider-than-minimal keys is not what this scenario is about — unless a fresh
+						// column accepts the very same bytes
+						fresh, _ := newColumn(t)
+						var ferr error
+						safely(func() {
+							frd := proto.NewReader(bytes.NewReader(wire))
+							if s, isS := fresh.(proto.StateDecoder); isS && rows > 0 {
+								ferr = s.DecodeState(frd)
+							}
+							if ferr == nil {
+								ferr = fresh.DecodeColumn(frd, rows)
+							}
+						})
+						if ferr == nil {
+							cs["step"] = k
+							R.Violate(Violation{Kind: "oracle", Key: "reuse-decode-differs-from-fresh", What: fmt.Sprintf("block %d (%d rows, keys of width code %d): the reused column refuses it (%v), a fresh column decodes it", k, rows, code, derr), Case: cs})
+						} else {
+							R.Count("lc-wide-keys:rejected")
+						}
+						ok = false
+						break
+					}
+					if col.Rows() != rows {
+						cs["step"] = k
+						R.Violate(Violation{Kind: "oracle", Key: "reuse-decode-differs-from-fresh", What: fmt.Sprintf("block %d of %d rows (keys of width code %d) decoded into the reused column: it reports %d rows", k, rows, code, col.Rows()), Case: cs})
+						ok = false
+						break
+					}
+					if e, sz := checkColumn(col, cn); e != nil && !sz {
+						cs["step"] = k
+						R.Violate(Violation{Kind: "oracle", Key: "reuse-decode-differs-from-fresh", What: fmt.Sprintf("block %d decoded into the reused column: %v", k, e), Case: cs})
+						ok = false
+						break
+					}
+					// the column is forwarded (encoded) before the next block arrives
+					if forward != "none" {
+						if _, err := libraryEncode(col, map[string]string{"encode": "buffer", "block": "block"}[forward]); err != nil {
+							R.Count("lc-wide-keys:forward-failed")
+						}
+					}
+				}
+				_ = ok
 			}
 		}
 	}
